@@ -29,7 +29,7 @@ func basePackage(r *rng.R, workDir string) (names []string, parts map[string][]b
 	document.VerifResetGlobals()
 	s := NewScript(r, false, workDir)
 	s.NoReopen = true
-	s.Weights = map[string]int{"AddTable": 10, "Table.structure": 8, "Table.content": 10, "Header/Footer": 6, "AddImageFromData": 6, "Lists": 5, "Notes": 4, "PageSettings": 5, "TOC": 3}
+	s.Weights = map[string]int{"AddTable": 10, "Table.structure": 8, "Table.content": 10, "Header/Footer": 6, "AddImageFromData": 6, "Lists": 5, "Notes": 4, "PageSettings": 5, "TOC": 3, "AddMathFormula": 5}
 	s.Run(r.Range(3, 25), nil)
 	if s.Panic == nil {
 		if b, err := s.Doc.ToBytes(); err == nil {
@@ -69,7 +69,31 @@ func mutateXML(r *rng.R, x string) (string, string) {
 		t := tags[r.Intn(len(tags))]
 		return t[0], t[1], true
 	}
-	switch r.Intn(29) {
+	switch r.Intn(31) {
+	case 29:
+		// named character references that XML does not predefine (what an HTML-minded producer writes), in run text and inside formulas
+		ent := []string{"&nbsp;", "&times;", "&alpha;", "&copy;", "&mdash;", "&bogus;", "&#xD800;", "&#0;"}[r.Intn(8)]
+		n := 0
+		every := r.Range(1, 3)
+		out := regexp.MustCompile(`<(w:t|m:t|w:instrText)( [^<>]*)?>`).ReplaceAllStringFunc(x, func(m string) string {
+			n++
+			if n%every != 0 {
+				return m
+			}
+			return m + ent
+		})
+		return out, "named-entity"
+	case 30:
+		// formulas in every spelling the reader has a path for: inline, paragraph-level, in a cell, in a content control; their
+		// content is carried as raw markup
+		f := []string{`<m:oMath xmlns:m="http://schemas.openxmlformats.org/officeDocument/2006/math"><m:r><m:t>x&amp;y</m:t></m:r></m:oMath>`,
+			`<m:oMathPara xmlns:m="http://schemas.openxmlformats.org/officeDocument/2006/math"><m:oMath><m:r><m:t>a&times;b</m:t></m:r></m:oMath></m:oMathPara>`,
+			`<m:oMath xmlns:m="http://schemas.openxmlformats.org/officeDocument/2006/math"><m:r><m:t>&alpha;</m:t></m:r><bad></m:oMath>`,
+			`<m:oMath xmlns:m="http://schemas.openxmlformats.org/officeDocument/2006/math"><m:r><m:t><![CDATA[<&>]]></m:t></m:r><!-- c --><?pi x?></m:oMath>`}[r.Intn(4)]
+		if strings.Contains(x, "</w:p>") {
+			return strings.Replace(x, "</w:p>", f+"</w:p>", r.Range(1, 2)), "formula-markup"
+		}
+		return strings.Replace(x, "<w:body>", "<w:body><w:p>"+f+"</w:p>", 1), "formula-markup"
 	case 0:
 		if len(x) == 0 {
 			return x, "noop"
